@@ -37,6 +37,9 @@ rng = chk.rng
 _ties = chk.translation_tie()
 Q = chk.tier == "quick" and all(v == "ok" for v in _ties.values())
 FREQ = 2.0e6
+WARMUP = ["conventional_out_angle", "out_leg_polar", "out_leg_azimuth", "signed_out_angle", "out_leg_radius",
+          "out_leg_cartesian", "conventional_inc_angle", "inc_leg_polar", "inc_leg_azimuth", "signed_inc_angle",
+          "inc_leg_radius", "inc_leg_cartesian", "inc_leg_size", "leg_points", "orientations_of_legs_points"]
 want = 1500 if Q else 15000
 lines, meta = [], []
 tries = 0
@@ -51,10 +54,30 @@ while len(meta) < want and tries < 40 * want:
     rpath = path.reverse()
     rrg = arim.ray.RayGeometry.from_path(rpath)
     impl = {}
+    # history: the RayGeometry objects handed to the model functions may have been queried before, in any
+    # order (TFM angle limits, Snell checks, ...); the cached object must answer as a fresh one does
+    if rng.random() < 0.5:
+        nq = 0
+        for g_ in (rg, rrg):
+            for _ in range(int(rng.integers(1, 6))):
+                meth = str(rng.choice(WARMUP))
+                k = int(rng.integers(-g_.numinterfaces, g_.numinterfaces))
+                try:
+                    getattr(g_, meth)(k)
+                    nq += 1
+                except Exception:          # noqa: BLE001  (queries undefined at the first/last interface)
+                    pass
+        chk.count(ray_geometry_queried_before=True)
+    else:
+        chk.count(ray_geometry_queried_before=False)
+    # the unit strings are documented case-insensitively by the interface-level functions (unit.lower())
+    spell = {"stress": str(rng.choice(["stress", "stress", "Stress", "STRESS"])),
+             "displacement": str(rng.choice(["displacement", "displacement", "Displacement", "DISPLACEMENT"]))}
+    chk.count(unit_spelling="lower-case" if (spell["stress"], spell["displacement"]) == ("stress", "displacement") else "capitalised")
     for unit in ("stress", "displacement"):
-        impl[("fwd", unit)] = complex(model.transmission_reflection_for_path(path, rg, unit=unit)[0, 0])
-        impl[("rev", unit)] = complex(model.reverse_transmission_reflection_for_path(path, rg, unit=unit)[0, 0])
-        impl[("fwd_of_reversed", unit)] = complex(model.transmission_reflection_for_path(rpath, rrg, unit=unit)[0, 0])
+        impl[("fwd", unit)] = complex(model.transmission_reflection_for_path(path, rg, unit=spell[unit])[0, 0])
+        impl[("rev", unit)] = complex(model.reverse_transmission_reflection_for_path(path, rg, unit=spell[unit])[0, 0])
+        impl[("fwd_of_reversed", unit)] = complex(model.transmission_reflection_for_path(rpath, rrg, unit=spell[unit])[0, 0])
     impl["bs"] = float(model.beamspread_2d_for_path(rg)[0, 0])
     impl["rbs"] = float(model.reverse_beamspread_2d_for_path(rg)[0, 0])
     impl["bs_of_reversed"] = float(model.beamspread_2d_for_path(rrg)[0, 0])
@@ -81,7 +104,7 @@ while len(meta) < want and tries < 40 * want:
     chk.count(modes="".join(geom["modes"][1:]), beyond_L_critical=bool(crit), attenuation=att is not None)
     meta.append(dict(geom={k: geom[k] for k in ("src", "phi", "vels", "legs", "inc", "out", "modes", "rho_f", "rho_s",
                                                  "c_f", "c_l", "c_t", "last_len")},
-                     walls=[(list(w[0]), w[1], w[2]) for w in geom["walls"]], att=att, impl=impl))
+                     walls=[(list(w[0]), w[1], w[2]) for w in geom["walls"]], att=att, impl=impl, unit_spelling=spell))
 
 outs = drv.run(lines)
 nontrivial = set()
